@@ -112,10 +112,11 @@ class SocketShim:
 
 
 class Loop:
-    def __init__(self, seed=0, opts=None):
+    def __init__(self, seed=0, opts=None, edit_silent_peer=None):
         o = dict({'dpd': 3600, 'lifetime': 7200}, **(opts or {}))
         # the daemon (A) is also configured for a third peer C that never answers: an ACQUIRE for it leaves a half-open initiator IKE_SA behind
         conf = {'A': {'A-B': wd.connection_dict('A', 'B', o), 'A-C': wd.connection_dict('A', 'C', o, index=7)}, 'B': {'B-A': wd.connection_dict('B', 'A', o)}}
+        conf['A']['A-C'].update(edit_silent_peer or {})      # (odd but loadable values in the connection nobody answers on: they must not matter to anybody else)
         self.w = wd.World(conf=conf, seed=seed, opts=o)
         self.udp, self.tcp, self.xfrm_sock = [], None, FakeXfrm(self)
         self.pending = None
@@ -259,7 +260,17 @@ class Legit:
     def next_datagram(self):
         w = self.loop.w
         if not self.answered and self.last is not None:
-            return self.last                 # the answer never came (send failure): retransmit
+            # the answer never came (send failure): retransmit.  One request cannot be answered a second time: the DELETE of an IKE_SA whose first copy the
+            # daemon already executed (the IKE_SA is gone there, the lost answer cannot be repeated - RFC 7296 1.4.1 accepts that).  B does what the protocol
+            # says: after its retransmissions it gives up on THAT IKE_SA - for a rekeyed IKE_SA the successor is not concerned.
+            self.retx = getattr(self, 'retx', 0) + 1
+            owner = next((s for s in w.sas('B') if s.state in (IkeSa.State.DEL_AFTER_REKEY_IKE_SA_REQ_SENT, IkeSa.State.DEL_IKE_SA_REQ_SENT)
+                          and s.request is not None and bytes(s.request.to_bytes())[:28] == self.last[:28]), None)
+            if self.retx <= 3 or owner is None:
+                return self.last
+            owner.state = IkeSa.State.DELETED
+            w.ctl['B'].ike_sas.remove(owner)
+            self.answered, self.retx = True, 0
         if not self.queue:
             if self.stage == 0:
                 req = w.acquire('B', sport=0, dport=0)
@@ -303,6 +314,7 @@ class Legit:
                 return None
             self.stage += 1
         self.last = self.queue.pop(0)
+        self.retx = 0
         self.answered = bool(W.dec_header(self.last)['response'])      # B's own responses (to requests the daemon started) wait for nothing
         return self.last
 
@@ -420,6 +432,8 @@ def hostile_event(kind, loop, rnd, prepared=False):
         return {'type': 'xfrm', 'name': kind, 'data': fakekernel.enc_acquire(wd.addr_of('A'), wd.addr_of('B'), wd.addr_of('A'), wd.addr_of('B'), 0, 0, 6, (1 << 3) | 1)}
     if kind == 'acquire_silent_peer':
         return {'type': 'xfrm', 'name': kind, 'data': fakekernel.enc_acquire(wd.addr_of('A'), wd.addr_of('C'), wd.addr_of('A'), wd.addr_of('C'), 0, 80, 6, (7 << 3) | 1)}
+    if kind == 'init_from_silent_peer':
+        return udp(init_request(b'\x7a' * 8), src=wd.addr_of('C'))
     if kind == 'half_open_wrong_spi':
         # a half-open initiator IKE_SA (towards the silent peer) has no keys yet and expects SPIr = 0: anybody can address it with any other SPIr
         half = next((x for x in w.sas('A') if x.is_initiator and x.my_crypto is None), None)
@@ -468,9 +482,9 @@ class Lazy(dict):
     """A scripted event whose concrete bytes are built when the loop reaches it (they depend on the state of the session)."""
 
 
-def run_behaviour(kinds_sequence, seed, rnd):
+def run_behaviour(kinds_sequence, seed, rnd, edit_silent_peer=None):
     """kinds_sequence: list of 'legit' | hostile kind, in the order select() hands them out."""
-    loop = Loop(seed=seed)
+    loop = Loop(seed=seed, edit_silent_peer=edit_silent_peer)
     script = []
     for k in kinds_sequence:
         script.append({'type': 'legit'} if k == 'legit' else {'type': 'lazy', 'kind': k})
